@@ -195,7 +195,7 @@ func (info *Info) Encode() (hheaData []byte, hmtxData []byte) {
 			if ext.IsZero() {
 				continue
 			}
-			rsb := info.Widths[i] - ext.URx
+			rsb := info.Widths[i] - (lsbs[i] + ext.URx - ext.LLx)
 			if first || rsb < hhea.MinRightSideBearing {
 				hhea.MinRightSideBearing = rsb
 			}
@@ -205,12 +205,13 @@ func (info *Info) Encode() (hheaData []byte, hmtxData []byte) {
 
 	if info.GlyphExtents != nil {
 		first = true
-		for _, ext := range info.GlyphExtents {
+		for i, ext := range info.GlyphExtents {
 			if ext.IsZero() {
 				continue
 			}
-			if first || ext.URx > hhea.XMaxExtent {
-				hhea.XMaxExtent = ext.URx
+			extent := lsbs[i] + ext.URx - ext.LLx
+			if first || extent > hhea.XMaxExtent {
+				hhea.XMaxExtent = extent
 			}
 			first = false
 		}
